@@ -60,9 +60,57 @@ def function_lines(path, qualname):
     return lines
 
 
-def measure(pid, mod, tier, seed, budget_s=6.0, max_cases=12):
+class _Budget(BaseException):
+    pass
+
+
+def _measure_child(pid, mod, picked, funcs, repo, budget_s, conn):
+    import signal
+    import coverage
+
+    def on_alarm(signum, frame):
+        raise _Budget()
+    cov = coverage.Coverage(data_file=None, include=[os.path.join(repo, 'FlowCal', '*'), os.path.join(repo, 'examples', '*')])
+    signal.signal(signal.SIGALRM, on_alarm)
+    signal.setitimer(signal.ITIMER_REAL, budget_s)
+    n = 0
+    cov.start()
     try:
-        import coverage
+        for c in picked:
+            try:
+                mod.run_case(c)
+            except _Budget:
+                raise
+            except Exception:
+                pass
+            n += 1
+    except _Budget:
+        pass
+    finally:
+        signal.setitimer(signal.ITIMER_REAL, 0)
+        cov.stop()
+    data = cov.get_data()
+    out = {'cases_traced': n, 'partial_case': n < len(picked), 'functions': {}}
+    for fname, q in funcs:
+        path_ = os.path.join(repo, 'FlowCal', os.path.basename(fname)) if not fname.startswith('examples') else os.path.join(repo, fname)
+        if not os.path.exists(path_):
+            continue
+        want = function_lines(path_, q)
+        if want is None:
+            out['functions']['%s:%s' % (fname, q)] = 'not found in the current source'
+            continue
+        hit = set(data.lines(path_) or ())
+        out['functions']['%s:%s' % (fname, q)] = '%d of %d statements executed' % (len(want & hit), len(want))
+    conn.send(out)
+    conn.close()
+
+
+def measure(pid, mod, tier, seed, budget_s=8.0, max_cases=12):
+    """Runs a slice of the cases under coverage in a child process with a hard time budget (tracing makes a
+    case 10-50x slower; a case cut short still contributes the lines it reached)."""
+    import multiprocessing as mp
+    try:
+        import coverage      # noqa: F401
     except ImportError:
         return {'note': 'coverage not available'}
     repo = os.path.realpath(os.environ.get('FCVERIF_REPO', '/repo'))
@@ -72,32 +120,25 @@ def measure(pid, mod, tier, seed, budget_s=6.0, max_cases=12):
         return {}
     step = max(1, len(cases) // max_cases)
     picked = cases[::step][:max_cases]
-    cov = coverage.Coverage(data_file=None, include=[os.path.join(repo, 'FlowCal', '*'), os.path.join(repo, 'examples', '*')])
-    t0 = time.time()
-    n = 0
-    cov.start()
-    try:
-        for c in picked:
-            try:
-                mod.run_case(c)
-            except Exception:
-                pass
-            n += 1
-            if time.time() - t0 > budget_s:
-                break
-    finally:
-        cov.stop()
-    data = cov.get_data()
-    out = {'cases_traced': n, 'functions': {}}
-    for fname, q in funcs:
-        path = os.path.join(repo, 'FlowCal', os.path.basename(fname)) if not fname.startswith('examples') else os.path.join(repo, fname)
-        if not os.path.exists(path):
-            continue
-        want = function_lines(path, q)
-        if want is None:
-            out['functions']['%s:%s' % (fname, q)] = 'not found in the current source'
-            continue
-        hit = set(data.lines(path) or ())
-        got = want & hit
-        out['functions']['%s:%s' % (fname, q)] = '%d of %d statements executed' % (len(got), len(want))
-    return out
+    # one case of every kind first (the last case of a kind is usually the smallest block), then the strided slice
+    kinds = {}
+    for c_ in cases:
+        if isinstance(c_, dict):
+            kinds[c_.get('kind', '')] = c_
+    picked = list(kinds.values()) + [c_ for c_ in picked if c_ not in kinds.values()]
+    ctx = mp.get_context('fork')
+    parent, child = ctx.Pipe(duplex=False)
+    p = ctx.Process(target=_measure_child, args=(pid, mod, picked, funcs, repo, budget_s, child))
+    p.daemon = True
+    p.start()
+    child.close()
+    out = None
+    if parent.poll(budget_s + 20):
+        try:
+            out = parent.recv()
+        except EOFError:
+            out = None
+    if p.is_alive():
+        p.terminate()
+    p.join(timeout=5)
+    return out if out is not None else {'note': 'not measured within the time budget'}
